@@ -139,6 +139,7 @@ type PkgContract struct {
 	FieldWriters  map[string][]string // Type.field -> functions allowed to store to it
 	ReadOnlyUses  map[string]bool     // callees a read-only global may be passed to
 	RecoverPoints []string            // entry points that must recover from panics (C14)
+	DecodeEntries []string            // documented decode entry points: no reflective panic may escape them (C14)
 	Line          int
 }
 
@@ -760,6 +761,8 @@ func (pc *PkgContract) add(word, rest string) error {
 		}
 	case "recoverpoints":
 		pc.RecoverPoints = append(pc.RecoverPoints, items()...)
+	case "decodeentries":
+		pc.DecodeEntries = append(pc.DecodeEntries, items()...)
 	case "fieldwriters":
 		f := strings.Fields(rest)
 		if len(f) < 2 {
